@@ -151,7 +151,7 @@ def leg_text_docs(chk, tier):
     from checks import mpcommon as mp
     quick = tier == "quick"
     for arch in ("json", "xml"):
-        sc = mp.gen("MC_LoadScript", {"Arch": '"%s"' % arch, "Mode": '"typed"', "MaxOps": 0, "Widths": "{0, 1}" if quick else "{0, 1, 2}", "Pads": "{0}",
+        sc = mp.gen("MC_LoadScript", {"Arch": '"%s"' % arch, "Mode": '"typed"', "MaxOps": 0, "Widths": ("{0, 1}" if quick else "{0, 1, 2}") if arch == "json" else ("{0, 8}" if quick else "{0, 1, 2, 8, 9}"), "Pads": "{0}",
                                       "TypedTargets": '{"i32", "str", "vec_i32", "objscope"}' if quick else "{}"},
                     ["Export"], "c10-%s-typed" % arch, chk, timeout=3000, xmx="6g")
         sc = [s for s in sc if s.get("meta", {}).get("enc", "utf8") == "utf8" and s["root"]["k"] != "leaf"]
